@@ -29,7 +29,7 @@ def q(s):
 
 
 KINDS = {"call": "call", "read": "read", "set": "set", "T": "brT", "F": "brF", "except": "exc", "acquired": "acquired", "release": "release",
-         "del": "del"}
+         "del": "del", "finally": "fin"}
 
 # skeleton terms are nested tuples: ("ev","act"|"aw",name) ("skip",) ("seq",a,b) ("alt",a,b) ("loop",b) ("exit",) ("brk",) ("cont",)
 # ("raise",) ("fin",b,f) ("try",b,h)
@@ -196,7 +196,8 @@ def stmt(s):
                 hs = one if hs is None else ("alt", one, hs)
             body = ("try", body, hs)
         if s.finalbody:
-            body = ("fin", body, block(s.finalbody))
+            # the clean-up block is bracketed by marker actions, so that "what happens inside a finally" can be asked
+            body = ("fin", body, seq(act("finally:enter"), block(s.finalbody), act("finally:exit")))
         return body
     if isinstance(s, (ast.With, ast.AsyncWith)):
         out = block(s.body)
@@ -224,6 +225,8 @@ def lean(t, ind=2):
         if t[1] == "aw":
             return f"(.ev (.aw {q(t[2])}))"
         kind, _, name = t[2].partition(":")
+        if kind == "finally":
+            return f"(.ev (.act ⟨.{'finEnter' if name == 'enter' else 'finExit'}, \"\"⟩))"
         return f"(.ev (.act ⟨.{KINDS[kind]}, {q(name)}⟩))"
     if k in ("skip", "exit", "brk", "cont", "raise"):
         return "." + k
